@@ -47,7 +47,7 @@ def insecure_top_battery(repo):
     insecure state; the five commands must not use it"""
     import subprocess, textwrap, os
     problems = []
-    for state in ('nonsticky', 'symlink', 'file'):
+    for state in ('nonsticky', 'setgid-nonsticky', 'setuid-nonsticky', 'symlink', 'file'):
         script = textwrap.dedent(r'''
             # trash-restore reads the real mount table; a tmpfs named 'tmpfs'
             # mounted on /tmp is the one non-physical file system it accepts
@@ -58,6 +58,8 @@ def insecure_top_battery(repo):
             PY="%(py)s"; B=/run/pyvc-repo; export PYTHONPATH=$B; uid=$(id -u)
             case %(state)s in
               nonsticky) mkdir -p $R/.Trash/$uid/files $R/.Trash/$uid/info; chmod 0777 $R/.Trash;;
+              setgid-nonsticky) mkdir -p $R/.Trash/$uid/files $R/.Trash/$uid/info; chmod 2777 $R/.Trash;;
+              setuid-nonsticky) mkdir -p $R/.Trash/$uid/files $R/.Trash/$uid/info; chmod 4755 $R/.Trash;;
               symlink) mkdir -p $R/real/$uid/files $R/real/$uid/info; chmod 1777 $R/real; ln -s real $R/.Trash;;
               file) echo x > $R/.Trash;;
             esac
